@@ -9,13 +9,16 @@
 (*   QV_GEN = "2s": 2 labels, coefficients {-1, 1, 2}        (256)         *)
 (*            "2f": 2 labels, coefficients {-2, -1, 1, 2}    (625)         *)
 (*            "3" : 3 labels, coefficients {-1, 1}           (6561)        *)
+(*            "3t": 3 labels, coefficients {-1, 1}, at most two terms (129)*)
+(*            "3q": 3 labels, coefficients {-1, 1}, at most three terms of *)
+(*                  degree <= 2                                (379)       *)
 (***************************************************************************)
 EXTENDS Poly, Json, IOUtils
 Which == IOEnv.QV_GEN
-Labels == IF Which = "3" THEN {"L0", "L1", "L2"} ELSE {"L0", "L1"}
+Labels == IF Which \in {"3", "3t", "3q"} THEN {"L0", "L1", "L2"} ELSE {"L0", "L1"}
 Coefs == IF Which = "2s" THEN {-1, 1, 2} ELSE IF Which = "2f" THEN {-2, -1, 1, 2} ELSE {-1, 1}
-Monos == SUBSET Labels
-Polys == UNION {[S -> Coefs] : S \in SUBSET Monos}
+Monos == IF Which = "3q" THEN {m \in SUBSET Labels : Cardinality(m) <= 2} ELSE SUBSET Labels
+Polys == UNION {[S -> Coefs] : S \in {T \in SUBSET Monos : (Which = "3t" => Cardinality(T) <= 2) /\ (Which = "3q" => Cardinality(T) <= 3)}}
 Raw(p) == SetToSeq({<<SetToSeq(m), p[m]>> : m \in DOMAIN p})
 Universe == SetToSeq({Raw(p) : p \in Polys})
 ASSUME JsonSerialize(IOEnv.QV_GEN_OUT, [labels |-> SetToSeq(Labels), coefs |-> SetToSeq(Coefs), size |-> Len(Universe), polys |-> Universe])
